@@ -172,12 +172,21 @@ class Ctx:
         self.driver = Driver()
         limit_memory()
         self._tmp = None
+        self._root = None
 
     def tmpdir(self) -> Path:
-        """fresh private directory, removed after the case"""
+        """private directory, emptied after the case.  Within one worker process every case gets the SAME path
+        (a fresh, empty directory of that name): successive imports in one process that read different files
+        under equal path names are a history the properties quantify over (a result memoised per path would be
+        served to the next case and show up as impl != spec).  VERIF_FRESH_PATHS=1 restores one path per case."""
         self.cleanup()
         base = os.environ.get("PEWVERIF_TMPBASE") or os.environ.get("XDG_RUNTIME_DIR") or "/var/tmp"
-        self._tmp = Path(tempfile.mkdtemp(prefix="pewverif-", dir=base if os.path.isdir(base) else None))
+        if self._root is None or os.environ.get("VERIF_FRESH_PATHS") == "1":
+            if self._root is not None:
+                shutil.rmtree(self._root, ignore_errors=True)
+            self._root = Path(tempfile.mkdtemp(prefix="pewverif-", dir=base if os.path.isdir(base) else None))
+        self._tmp = self._root / "case"
+        self._tmp.mkdir()
         return self._tmp
 
     def cleanup(self):
@@ -187,6 +196,9 @@ class Ctx:
 
     def close(self):
         self.cleanup()
+        if self._root is not None:
+            shutil.rmtree(self._root, ignore_errors=True)
+            self._root = None
         self.driver.close()
 
 
@@ -367,9 +379,15 @@ def _eval_one(args):
     if _WORKER["ctx"] is None:
         _WORKER["ctx"] = Ctx()
     ctx = _WORKER["ctx"]
+    prev = _WORKER.get("prev")
+    _WORKER["prev"] = case
     try:
-        out = prop.evaluate(case, ctx)
-        return (kind, idx, case, dict(out), None)
+        out = dict(prop.evaluate(case, ctx))
+        if not out["spec_ok"] and not out["undetermined"] and prev is not None:
+            # the case this worker process evaluated just before: kept for failures that need that history
+            # (state left in the process by the earlier call, e.g. something memoised per path or per object)
+            out["_prev"] = prev
+        return (kind, idx, case, out, None)
     except InternalError as e:
         return (kind, idx, case, None, "internal: " + str(e))
     except Exception:
@@ -524,7 +542,7 @@ def shrink_case(prop: Prop, case: dict, ctx: Ctx, still_fails, budget=400, secon
     return cur
 
 
-def write_replay(pid, seed, tier, k, kind, case, out, theorem=None, note=""):
+def write_replay(pid, seed, tier, k, kind, case, out, theorem=None, note="", history=None):
     d = VERIF / "replays"
     d.mkdir(exist_ok=True)
     p = d / f"{pid}-{tier}-{seed}-{k}.json"
@@ -534,6 +552,8 @@ def write_replay(pid, seed, tier, k, kind, case, out, theorem=None, note=""):
         "spec": out.get("spec") if out else None, "note": note or (out.get("note") if out else ""),
         "theorem": theorem, "how_to_replay": f"./check {pid} --replay replays/{p.name}",
     }
+    if history:
+        body["history"] = history  # cases evaluated first, in the same process, by --replay
     p.write_text(json.dumps(body, indent=1, default=str) + "\n")
     return p.relative_to(VERIF)
 
@@ -619,11 +639,25 @@ def _main(prop, modname, args, seed, tier, t0, pid, log):
                     small = shrink_case(prop, case, ctx, lambda o: (not o["spec_ok"]) and not o["undetermined"]
                                         and prop.known(case, o) is None)
                     sout = dict(prop.evaluate(small, ctx))
+                    history = None
                     if sout["spec_ok"]:
-                        small, sout = case, out
+                        small, sout = case, {k: v for k, v in out.items() if k != "_prev"}
+                        # not reproduced alone in a fresh process: try it after the case that preceded it in its worker
+                        if out.get("_prev") is not None:
+                            ctx.close()
+                            ctx = Ctx()
+                            try:
+                                prop.evaluate(out["_prev"], ctx)
+                                again = dict(prop.evaluate(case, ctx))
+                                if not again["spec_ok"] and not again["undetermined"]:
+                                    history, sout = [out["_prev"]], again
+                            except Exception:
+                                pass
                 finally:
                     ctx.close()
-                rp = write_replay(pid, seed, tier, 0, "impl_vs_spec", small, sout, note=f"from {kind}[{idx}]")
+                rp = write_replay(pid, seed, tier, 0, "impl_vs_spec", small, sout, note=f"from {kind}[{idx}]"
+                                  + ("; fails only after the case(s) in `history` were evaluated in the same process" if history
+                                     else ""), history=history)
                 replays.append(str(rp))
                 print(f"VIOLATION property={pid} replay={rp}", flush=True)
                 code = 1
@@ -669,6 +703,11 @@ def do_replay(prop, path, log):
         return 1 if proof["problems"] else 0
     ctx = Ctx()
     try:
+        for h in body.get("history") or []:
+            try:
+                prop.evaluate(h, ctx)
+            except Exception:
+                pass
         out = prop.evaluate(case, ctx)
     finally:
         ctx.close()
